@@ -38,7 +38,7 @@ TEpoch == /\ IsEvent("val") /\ Ev.pre = 1 /\ StepFlags /\ ExactAgrees
           /\ UNCHANGED exact
 RetMatches == /\ Ev.lens = <<step, step, step, step>>
               /\ Ev.nfeat = hN /\ Ev.gem = hS /\ Ev.pen = hP /\ Ev.alphasok
-              /\ Ev.bestw = bestW /\ Ev.finalw = FinalW /\ Ev.nanwarned = nan
+              /\ Ev.bestw = bestW /\ Ev.finalw = FinalW /\ Ev.nanwarned = nan /\ Ev.selok
 TReturn == IsEvent("ret") /\ RetMatches /\ Return /\ UNCHANGED exact
 
 TNext == TBegin \/ TInitVal \/ TStepVal \/ TEpoch \/ TReturn
@@ -54,6 +54,6 @@ Diag == [at |-> tid, l |-> l, ph |-> ph,
                      exactagrees |-> (ph = "inner" /\ Ev.pre = 1) => ExactAgrees]
                ELSE [canreturn |-> CanReturn, lens |-> Ev.lens = <<step, step, step, step>>, nfeat |-> Ev.nfeat = hN,
                      gem |-> Ev.gem = hS, pen |-> Ev.pen = hP, alphas |-> Ev.alphasok, bestw |-> Ev.bestw = bestW,
-                     finalw |-> Ev.finalw = FinalW, nanwarned |-> Ev.nanwarned = nan]]
+                     finalw |-> Ev.finalw = FinalW, nanwarned |-> Ev.nanwarned = nan, flags_sel |-> Ev.selok]]
 Progress == PrintT(ToJson(Diag))
 ==============================================================================================================
